@@ -5,10 +5,15 @@ from comp import Comp
 from props.c08 import op_kinds
 
 
-def check_cross(C, drv, gp, fa, mo, pf, pm, np):
+def check_cross(C, drv, gp, fa, mo, pf, pm, np, parents=None):
     terms = [np.array([[0.25]]), np.array([[0.75]])]
-    father = T.build(fa, terminals=terms, term_ids=[0, 1])
-    mother = T.build(mo, ops=['COS' if s == 'U' else 'MUL' for s in op_kinds(mo)], terminals=terms, term_ids=[1, 0])
+    if parents is not None:
+        father, mother = parents
+    else:
+        father = T.build(fa, terminals=terms, term_ids=[0, 1])
+        mother = T.build(mo, ops=['COS' if s == 'U' else 'MUL' for s in op_kinds(mo)], terminals=terms, term_ids=[1, 0])
+    # parents have usually been traversed / measured before they are crossed (as in a GP run)
+    _ = (father.pre_order, father.n_nodes, mother.pre_order, mother.n_nodes)
     nf, nm = father.n_nodes, mother.n_nodes
     fb, mb = T.canon(father), T.canon(mother)
     fids, mids = gpops.node_ids(father), gpops.node_ids(mother)
@@ -45,8 +50,9 @@ def check_cross(C, drv, gp, fa, mo, pf, pm, np):
     if gpops.labels(o1) + gpops.labels(o2) != gpops.labels(father) + gpops.labels(mother):
         C.issue('multiset-not-conserved', 'oracle', rp)
     exchanged = sf is not None and sm is not None
-    C.case(key=('cross', fb, mb, pf, pm), nontrivial=exchanged, kind='cross-exchange' if exchanged else 'cross-no-slot',
+    C.case(key=('cross', fb, mb, pf, pm), nontrivial=exchanged, kind=('cross-exchange' if exchanged else 'cross-no-slot') + ('-gen2' if parents is not None else ''),
            sample=dict(rp, offspring=real) if exchanged and nf >= 4 and nm >= 4 else None)
+    return o1, o2
 
 
 def check_mutate(C, drv, gp, s, p):
@@ -188,6 +194,17 @@ def check(ctx):
                         check_cross(C, drv, gp, fa, mo, pf, pm, np)
         C.exhaustive = True
         C.extra['exhaustive_over'] = f'_cross: all {len(shapes) ** 2} ordered pairs of parent shapes up to depth 2 x every pair of points 1..n_nodes+1'
+        # multi-step histories: offspring of one crossover are the parents of the next
+        big = [s_ for s_ in T.shapes_upto(3) if T.shape_size(s_) >= 4]
+        for k in range(150 if ctx['tier'] == 'quick' else 1500):
+            fa, mo = C.rng.choice(big), C.rng.choice(big)
+            r1 = check_cross(C, drv, gp, fa, mo, C.rng.randint(2, T.shape_size(fa)), C.rng.randint(2, T.shape_size(mo)), np)
+            if not r1:
+                continue
+            o1, o2 = r1
+            r2 = check_cross(C, drv, gp, None, None, C.rng.randint(1, o1.n_nodes), C.rng.randint(1, o2.n_nodes), np, parents=(o1, o2))
+            if r2:
+                check_cross(C, drv, gp, None, None, C.rng.randint(1, r2[0].n_nodes), C.rng.randint(1, r2[1].n_nodes), np, parents=r2)
         if ctx['tier'] == 'thorough':
             d3 = T.shapes_upto(3)
             for k in range(1500):
